@@ -187,7 +187,7 @@ class Ctx:
         if cond:
             return True
         self.stats["oracle-fail" + (":" + cls if cls else "")] += 1
-        if len(self.failures) < 50:
+        if sum(1 for f in self.failures if f[0] == cls) < 12:     # per class, so no class crowds another out
             self.failures.append((cls, what, case, observed))
         return False
 
